@@ -83,14 +83,15 @@ class ECDF(sc.core.stairs.Stairs):
         )
 
         # inspired by seaborn.histplot
-        if stat != "probability":
+        if stat == "density":
+            # unit area: the total length cancels (on datetime-like domains its unit with it)
+            widths = bins.map(lambda i: i.right - i.left)
+            values = values / np.dot(values, widths)
+        elif stat != "probability":
             values = values * self._denormalize_probability_factor
-            if stat in ("frequency", "density"):
+            if stat == "frequency":
                 widths = bins.map(lambda i: i.right - i.left)
-                if stat == "frequency":
-                    values = values / widths
-                elif stat == "density":
-                    values = values / np.dot(values, widths)
+                values = values / widths
 
         return pd.Series(
             data=values,
